@@ -5,6 +5,7 @@ import (
 	"strings"
 )
 
+//go:norace
 func funcName(pc uintptr) string {
 	f := runtime.FuncForPC(pc)
 	if f == nil {
